@@ -19,7 +19,7 @@ CONFIG = dict(
           "underlying store is closed twice; a close at count 0 returns an error and makes no underlying call; underlying "
           "Drop calls <= 1 since the last open and <= number of opens. Non-trivial = a history in which some name had >= 2 "
           "overlapping opens and, after they were all closed, was closed once more; distinct by history hash."),
-    assumptions=["single-threaded histories (races are the subject of C28)",
+    assumptions=["an OpenDB call whose underlying open fails (injected fault) is not an open for the reference count, but counts as an open attempt for the bound of one underlying drop per open (weaker reading)", "single-threaded histories (races are the subject of C28)",
                  "stale handles (of a name that was fully closed and opened again) are not used any more"],
     units=[
         dict(test="TestC27", quick=20000, thorough=3200000, shards=16, steps=40),
